@@ -20,8 +20,15 @@ pub struct C12;
 pub enum C12Case {
     /// a package built by the library from a consistent file tree
     Built(BuilderConfig),
-    /// hand-encoded hostile package (no compressor tag)
-    Hostile { files: Vec<ModelFile> },
+    /// hand-encoded hostile package (no compressor tag). scenario 0: one extraction into a fresh
+    /// target; 1: the target's parent directories do not exist; 2: the entries are split into
+    /// two packages (the first two entries, the rest) extracted one after the other into the
+    /// same target
+    Hostile {
+        files: Vec<ModelFile>,
+        #[serde(default)]
+        scenario: u8,
+    },
 }
 
 const TARGET_PARENT: &str = "d1/d2/d3/d4/d5/d6/d7/d8";
@@ -74,11 +81,11 @@ fn make_jail() -> Result<TempDir, (String, String)> {
 }
 
 /// fork, chroot into `jail`, extract `pkg` to the target; returns (exit code, message)
-fn extract_in_jail(jail: &Path, pkg: &rpm::Package, umask: u32) -> Result<(i32, String), (String, String)> {
+fn extract_in_jail(jail: &Path, pkgs: &[rpm::Package], target_rel: &str, umask: u32) -> Result<(i32, String), (String, String)> {
     let result_path = jail.parent().unwrap().join(format!("{}.result", jail.file_name().unwrap().to_string_lossy()));
     let result_file = std::fs::File::create(&result_path).map_err(|e| ("harness-io".to_string(), e.to_string()))?;
     let cjail = std::ffi::CString::new(jail.as_os_str().to_string_lossy().as_bytes()).unwrap();
-    let target = format!("/{}/t", TARGET_PARENT);
+    let target = format!("/{}", target_rel);
     let pid = unsafe { libc::fork() };
     if pid < 0 {
         return Err(("harness-fork".into(), "fork failed".into()));
@@ -96,12 +103,29 @@ fn extract_in_jail(jail: &Path, pkg: &rpm::Package, umask: u32) -> Result<(i32, 
             0
         };
         let _ = code;
-        let r = panics::catch(|| pkg.extract(&target));
-        let (code, msg) = match r {
-            Ok(Ok(())) => (0, String::new()),
-            Ok(Err(e)) => (1, e.to_string()),
-            Err(p) => (2, p),
-        };
+        // several packages go into the same target one after the other; the verdict is the
+        // last result, a panic anywhere wins
+        let (mut code, mut msg) = (0, String::new());
+        for pkg in pkgs {
+            let r = panics::catch(|| pkg.extract(&target));
+            match r {
+                Ok(Ok(())) => {
+                    if code != 2 {
+                        code = 0;
+                    }
+                }
+                Ok(Err(e)) => {
+                    if code != 2 {
+                        code = 1;
+                        msg = e.to_string();
+                    }
+                }
+                Err(p) => {
+                    code = 2;
+                    msg = p;
+                }
+            }
+        }
         let _ = rf.write_all(msg.as_bytes());
         let _ = rf.flush();
         unsafe { libc::_exit(code) }
@@ -223,10 +247,10 @@ fn link_game(i: u64) -> Option<C12Case> {
     if (i / 16 / 13 / 2) % 2 == 1 {
         files.push(mk(dir, "zlast", 0o100644, "", b"after the games"));
     }
-    if i >= 16 * 13 * 2 * 2 * 2 {
+    if i >= 16 * 13 * 2 * 2 * 2 * 3 {
         return None;
     }
-    Some(C12Case::Hostile { files })
+    Some(C12Case::Hostile { files, scenario: ((i / (16 * 13 * 2 * 2 * 2)) % 3) as u8 })
 }
 
 impl Property for C12 {
@@ -237,7 +261,7 @@ impl Property for C12 {
         C12
     }
     fn rule(&self) -> String {
-        "positive: packages built from consistent file trees (nested directories, explicit directory entries, symlinks, all 12 permission bits, every compressor) - every entry must exist at target+path with content, permission bits and link target, result Ok; hostile: hand-encoded packages with '..' in directory or base names, absolute base names, empty names, duplicate paths, a symlink followed by a file/directory/link at or below it and the reverse order (16 link targets x 13 second entries x 2 depths x 2 orders), FIFO/char/block/socket/unknown file types, dirnames without leading '/'. Each case is extracted by a forked child chroot()ed into a fresh jail with sentinel files; everything in the jail outside the target is snapshotted before and after. Non-trivial = at least one entry extracted or an error after the target was created; distinct by case hash.".into()
+        "positive: packages built from consistent file trees (nested directories, explicit directory entries, symlinks, all 12 permission bits, every compressor) - every entry must exist at target+path with content, permission bits and link target, result Ok; hostile: hand-encoded packages with '..' in directory or base names, absolute base names, empty names, duplicate paths, a symlink followed by a file/directory/link at or below it and the reverse order (16 link targets x 13 second entries x 2 depths x 2 orders), FIFO/char/block/socket/unknown file types, dirnames without leading '/'. Hostile packages are also extracted into a target whose parent directories do not exist and, split in two, one after the other into the same target. Each case is extracted by a forked child chroot()ed into a fresh jail with sentinel files; everything in the jail outside the target is snapshotted before and after. Non-trivial = at least one entry extracted or an error after the target was created; distinct by case hash.".into()
     }
     fn assumptions(&self) -> Vec<String> {
         vec![
@@ -246,7 +270,7 @@ impl Property for C12 {
         ]
     }
     fn required_labels(&self, _t: Tier) -> Vec<&'static str> {
-        vec!["built", "hostile", "extracted-something", "hostile-dotdot", "hostile-symlink", "hostile-special-type", "built-symlink", "built-dir", "result-err", "result-ok"]
+        vec!["built", "hostile", "extracted-something", "hostile-dotdot", "hostile-symlink", "hostile-special-type", "built-symlink", "built-dir", "result-err", "result-ok", "target-parent-missing", "two-extractions-one-target"]
     }
     fn phases(&self, tier: Tier) -> Vec<Phase<C12Case>> {
         vec![
@@ -262,8 +286,8 @@ impl Property for C12 {
                         .boxed()
                 }),
             },
-            Phase::Enumerate { name: "link-games", total: 16 * 13 * 2 * 2 * 2, exhaustive: true, gen: Arc::new(link_game) },
-            Phase::Random { name: "hostile", cases: tier.pick(12_000, 300_000), strat: Arc::new(|| hostile_files().prop_map(|files| C12Case::Hostile { files }).boxed()) },
+            Phase::Enumerate { name: "link-games", total: 16 * 13 * 2 * 2 * 2 * 3, exhaustive: true, gen: Arc::new(link_game) },
+            Phase::Random { name: "hostile", cases: tier.pick(12_000, 300_000), strat: Arc::new(|| (hostile_files(), prop_oneof![4 => Just(0u8), 1 => Just(1u8), 2 => Just(2u8)]).prop_map(|(files, scenario)| C12Case::Hostile { files, scenario }).boxed()) },
         ]
     }
     fn check(&self, case: &C12Case) -> Outcome {
@@ -276,6 +300,8 @@ impl Property for C12 {
 }
 
 fn inner(case: &C12Case, o: &mut Outcome) -> Result<(), (String, String)> {
+    let mut target_rel = format!("{TARGET_PARENT}/t");
+    let mut second_pkg: Option<rpm::Package> = None;
     let (pkg, expect): (rpm::Package, Option<Vec<(FileSpec, Vec<u8>)>>) = match case {
         C12Case::Built(cfg) => {
             o.label("built");
@@ -289,8 +315,17 @@ fn inner(case: &C12Case, o: &mut Outcome) -> Result<(), (String, String)> {
             let b = build_and_write(cfg)?;
             (parse_pkg(&b.bytes)?, Some(b.files))
         }
-        C12Case::Hostile { files } => {
+        C12Case::Hostile { files, scenario } => {
             o.label("hostile");
+            let split = if *scenario == 2 && files.len() >= 2 { Some(files.len().min(3) - 1) } else { None };
+            match scenario {
+                1 => {
+                    o.label("target-parent-missing");
+                    target_rel = format!("{TARGET_PARENT}/missing/sub/t");
+                }
+                2 if split.is_some() => o.label("two-extractions-one-target"),
+                _ => {}
+            }
             for f in files {
                 if f.dir.contains("..") || f.base.contains("..") {
                     o.label("hostile-dotdot");
@@ -301,12 +336,26 @@ fn inner(case: &C12Case, o: &mut Outcome) -> Result<(), (String, String)> {
                     _ => o.label("hostile-special-type"),
                 }
             }
-            let mut main = filepkg::basic_entries("hostile");
-            main.extend(filepkg::file_entries(files, false));
-            let payload = cpio::write_archive(&filepkg::archive_for(files));
-            let bytes = filepkg::wrap(main, payload, true).encode();
-            match panics::catch(|| rpm::Package::parse(&mut &bytes[..])) {
-                Ok(Ok(p)) => (p, None),
+            let encode = |files: &[ModelFile]| -> Option<rpm::Package> {
+                let mut main = filepkg::basic_entries("hostile");
+                main.extend(filepkg::file_entries(files, false));
+                let payload = cpio::write_archive(&filepkg::archive_for(files));
+                let bytes = filepkg::wrap(main, payload, true).encode();
+                match panics::catch(|| rpm::Package::parse(&mut &bytes[..])) {
+                    Ok(Ok(p)) => Some(p),
+                    _ => None,
+                }
+            };
+            let (a, b) = match split {
+                Some(k) => (encode(&files[..k]), Some(encode(&files[k..]))),
+                None => (encode(files), None),
+            };
+            match (a, b) {
+                (Some(p), None) => (p, None),
+                (Some(p), Some(Some(q))) => {
+                    second_pkg = Some(q);
+                    (p, None)
+                }
                 _ => {
                     o.label("unparseable");
                     return Ok(());
@@ -315,12 +364,15 @@ fn inner(case: &C12Case, o: &mut Outcome) -> Result<(), (String, String)> {
         }
     };
     let jail = make_jail()?;
-    let target = jail.0.join(TARGET_PARENT).join("t");
+    let target = jail.0.join(&target_rel);
     let before = snapshot(&jail.0, &target);
     // the process umask must not influence the permission bits of listed entries
     let umask = [0o022u32, 0o077, 0o000, 0o027][(fnv1a(serde_json::to_string(case).unwrap_or_default().as_bytes()) % 4) as usize];
     o.label(format!("umask-{:03o}", umask));
-    let (code, msg) = extract_in_jail(&jail.0, &pkg, umask)?;
+    let mut pkgs = vec![pkg];
+    pkgs.extend(second_pkg);
+    let (code, msg) = extract_in_jail(&jail.0, &pkgs, &target_rel, umask)?;
+    let pkg = &pkgs[0];
     if code == 9 {
         return Err(("harness-chroot".into(), "chroot() refused in this sandbox".into()));
     }
